@@ -6,9 +6,11 @@ pub mod c05;
 pub mod c06;
 pub mod c07;
 pub mod c08;
+pub mod c09;
 pub mod c11;
 pub mod c12;
 pub mod c13;
+pub mod c14;
 pub mod c15;
 pub mod c16;
 pub mod c19;
@@ -25,9 +27,11 @@ pub fn run(p: &str, thorough: bool, rest: &[String]) {
         "C06" => c06::run(thorough),
         "C07" => c07::run(thorough),
         "C08" => c08::run(thorough),
+        "C09" => c09::run(thorough),
         "C11" => c11::run(thorough),
         "C12" => c12::run(thorough),
         "C13" => c13::run(thorough),
+        "C14" => c14::run(thorough),
         "C15" => c15::run(thorough),
         "C16" => c16::run(thorough, rest),
         "C19" => c19::run(thorough),
